@@ -52,7 +52,8 @@ class Lock:
 def coq_build():
     """Full .vo build of the development (no-op when up to date). Returns (ok, log)."""
     with Lock("coq"):
-        if not os.path.exists(os.path.join(COQ, "Makefile")):
+        mk, prj = os.path.join(COQ, "Makefile"), os.path.join(COQ, "_CoqProject")
+        if not os.path.exists(mk) or os.path.getmtime(mk) < os.path.getmtime(prj):
             sh("coq_makefile -f _CoqProject -o Makefile", cwd=COQ, check=True)
         rc, out = sh("timeout 3000 make -j16", cwd=COQ)
         return rc == 0, out
